@@ -35,7 +35,7 @@ RULE = ("a real Node stores payloads of 0, 1, 63, 64, 65, 127, 128, 129, 1000 an
         "the held bytes are ChaCha20(key reconstructed from the manifest's shares, nonce, counter = first four id bytes LE) "
         "of the payload; local fetch, replica import and CLI decryption of the untouched replica return the payload; a "
         "replica whose decryption does not hash to the manifest hash is refused by both, is not stored and not returned by "
-        "the receiver's lookup. In a third of the cases the same chunk id is then stored a second time (new payload, key, nonce, shares with the same indices) and read back locally and through a second replica import on the node that holds the first. non-trivial = a corrupted replica or a second store; distinct = distinct outputs")
+        "the receiver's lookup. The same replica is also given to the node that holds the chunk, whose own lookup must go on returning the payload (a refusal leaves no trace). In a third of the cases the same chunk id is then stored a second time (new payload, key, nonce, shares with the same indices) and read back locally and through a second replica import on the node that holds the first. non-trivial = a corrupted replica or a second store; distinct = distinct outputs")
 ASSUMPTIONS = ["std::random_device is an input; mt19937_64 + uniform_int_distribution<uint32_t>(0,255) for the nonce is predicted in "
                "python (top byte of each 64-bit draw)",
                "CryptoManager replaces an all-zero key by a random one: not modelled (a reconstructed all-zero key has probability 2^-256)",
@@ -190,6 +190,7 @@ def judge(case, impl, model):
         local = ropt(); recv = ropt()
         stored = impl[q]; q += 1
         bfetch = ropt(); cli = ropt()
+        arecv = ropt(); afetch = ropt()        # the same replica given to the node that holds the chunk, and its lookup afterwards
         second = None
         if again:
             hl = impl[q]; held2 = bytes(impl[q + 1:q + 1 + hl]); q += 1 + hl
@@ -206,6 +207,8 @@ def judge(case, impl, model):
         return {"fail": "C11|held-bytes-are-not-the-encryption-under-the-key-the-shares-reconstruct"}
     if local != data:
         return {"fail": "C11|local-lookup-does-not-return-the-payload"}
+    if afetch != data:
+        return {"fail": "C11|holder-lookup-changed-by-a-replica-import" + ("" if isinstance(arecv, bytes) else "-that-was-refused"), "nontrivial": True}
     if second is not None:
         held2, local2, recv2, bfetch2 = second
         if local2 != data2:
